@@ -1,4 +1,5 @@
 import NsyncVerif.Proofs.MuCTLMisc
+import NsyncVerif.Proofs.MuCTLLw3
 /-
   MuC: all the facts about one step of thread `t` (`StepTL`), for every event of `t` except client data accesses.
 -/
@@ -13,32 +14,32 @@ theorem step_tl {cfg : Cfg} {s s' : State} {e : Event} {t : Tid} (h1 : Inv1 s) (
   | call u a =>
     cases he
     have hm := miscTL_call (t := t) h
-    exact ⟨hoth, hm.1, hm.2, recTL_call h, waitTL_call h, wordTL_call h, rkeep_call h⟩
+    exact ⟨hoth, hm.1, hm.2, recTL_call h, waitTL_call h, wordTL_call h, rkeep_call h, lwTL_call h⟩
   | ret u a res =>
     cases he
     have hm := miscTL_ret (t := t) h
-    exact ⟨hoth, hm.1, hm.2, recTL_ret h, waitTL_ret h, wordTL_ret h, rkeep_ret h1 h⟩
+    exact ⟨hoth, hm.1, hm.2, recTL_ret h, waitTL_ret h, wordTL_ret h, rkeep_ret h1 h, lwTL_ret h⟩
   | ld u o loc obs =>
     cases he
     have hm := miscTL_ld (t := t) h
-    exact ⟨hoth, hm.1, hm.2, recTL_ld h1 h, waitTL_ld h1 h, wordTL_ld h1 h3 h, rkeep_ld h1 h⟩
+    exact ⟨hoth, hm.1, hm.2, recTL_ld h1 h, waitTL_ld h1 h, wordTL_ld h1 h3 h, rkeep_ld h1 h, lwTL_ld h1 h3 h⟩
   | st u o loc new obs =>
     cases he
     have hm := miscTL_st (t := t) h
-    exact ⟨hoth, hm.1, hm.2, recTL_st h1 h, waitTL_st h1 h, wordTL_st h1 h3 h, rkeep_st h1 h⟩
+    exact ⟨hoth, hm.1, hm.2, recTL_st h1 h, waitTL_st h1 h, wordTL_st h1 h3 h, rkeep_st h1 h, lwTL_st h1 h3 h⟩
   | cas u o loc exp new obs ok =>
     cases he
     have hm := miscTL_cas (t := t) h1 h
-    exact ⟨hoth, hm.1, hm.2, recTL_cas h1 h, waitTL_cas h1 h, wordTL_cas h1 h3 h, rkeep_cas h1 h⟩
+    exact ⟨hoth, hm.1, hm.2, recTL_cas h1 h, waitTL_cas h1 h, wordTL_cas h1 h3 h, rkeep_cas h1 h, lwTL_cas h1 h3 h⟩
   | cond u fn k res =>
     cases he
     have hm := miscTL_cond (t := t) h1 h
-    exact ⟨hoth, hm.1, hm.2, recTL_cond h1 h, waitTL_cond h1 h, wordTL_cond h1 h, rkeep_cond h1 h⟩
+    exact ⟨hoth, hm.1, hm.2, recTL_cond h1 h, waitTL_cond h1 h, wordTL_cond h1 h, rkeep_cond h1 h, lwTL_cond h1 h⟩
   | semPEnter u k | semPRet u k | semPdEnter u k dl | semPdRet u k b | semV u k | noteSeen u | noteNotify u =>
     have hu : u = t := by simpa [Event.tid] using he
     have hm := miscTL_sem (t := t) (by simpa using hu) h
     exact ⟨hoth, hm.1, hm.2, recTL_sem (by simpa using hu) h, waitTL_sem h1 (by simpa using hu) h, wordTL_sem (by simpa using hu) h,
-      rkeep_sem h1 (by simpa using hu) h⟩
+      rkeep_sem h1 (by simpa using hu) h, lwTL_sem (by simpa using hu) h⟩
   | envV k | envSem k n | tick n => simp [Event.tid] at he
   | dataW u x v => exact absurd rfl (hd u x v)
   | dataR u x v => exact absurd rfl (hr u x v)
